@@ -537,7 +537,7 @@ func writeEvidence(id, tier string, seed int, t0 time.Time, results []*FuncResul
 			nUnprovenBase++
 		}
 	}
-	nonBounded := len(obls) - nBounded - nUnprovenBase
+	nonBounded := len(obls) - nBounded - nUnprovenBase - len(known)
 	cov := map[string]interface{}{
 		"obligations":               nonBounded,
 		"discharged":                nDis,
